@@ -558,6 +558,8 @@ func c20Probe(limits bool) func(w *mintops.W) {
 		}
 		proofsA := x.unblind(sigsA, outsA)
 		x.nut19("mint", "/v1/mint/bolt11", mintBody, first, 20002)
+		type lateReplay struct{ where, path, body, raw string }
+		lateReplays := []lateReplay{{"mint", "/v1/mint/bolt11", mintBody, first.raw}}
 		r = x.call("GET", "/v1/mint/quote/bolt11/"+qid, "\x00nobody")
 		if x.expect200("mintquote-state", r) {
 			x.quoteShape("mintquote-state(issued)", r.obj, "ISSUED")
@@ -606,6 +608,7 @@ func c20Probe(limits bool) func(w *mintops.W) {
 			if x.expect200("swap", firstS) {
 				x.sigsShape("swap", firstS.obj, outsB)
 				x.nut19("swap", "/v1/swap", swapBody, firstS, 11001)
+				lateReplays = append(lateReplays, lateReplay{"swap", "/v1/swap", swapBody, firstS.raw})
 				x.expectErr("spent-11001", x.call("POST", "/v1/swap", fmt.Sprintf(`{"inputs":%s,"outputs":%s}`, insJSON(in), outsJSON(x.outsFor(net)))), 11001)
 			}
 		}
@@ -728,6 +731,14 @@ func c20Probe(limits bool) func(w *mintops.W) {
 						x.viol("shape/restore("+name+")/"+k, "restore of a batch with nothing to restore: %q is %v, expected an empty array", k, r.obj[k])
 					}
 				}
+			}
+		}
+		// the first mint and swap once more, after all the other successful mints and swaps of this probe: still the
+		// byte-identical first answer (an answer kept in the cache must not change with what the server did since)
+		for _, lr := range lateReplays {
+			r := x.call("POST", lr.path, lr.body)
+			if r.code != 200 || r.raw != lr.raw {
+				x.viol("nut19/"+lr.where+"/late-replay-differs", "replaying the first %s request after other successful requests returned status %d and a %s body: %.160q", lr.where, r.code, map[bool]string{true: "identical", false: "different"}[r.raw == lr.raw], r.raw)
 			}
 		}
 		// ---- armed storage / Lightning failures ----
